@@ -176,6 +176,8 @@ def _one(raw):
                     bad.append(('import_by_path[%s]' % '/'.join(p), 'raises', 'returned %r' % (m,)))
                 elif m.__name__ != '.'.join(p[k:]):
                     bad.append(('import_by_path_name[%s]' % '/'.join(p), '.'.join(p[k:]), m.__name__))
+                elif os.path.realpath(getattr(m, '__file__', '') or '') != os.path.realpath(path):
+                    bad.append(('import_by_path_file[%s]' % '/'.join(p), os.path.relpath(path, root), getattr(m, '__file__', None)))
             except Exception as ex:
                 if not failing:
                     bad.append(('import_by_path[%s]' % '/'.join(p), 'module', 'raised %r' % (ex,)))
@@ -188,6 +190,30 @@ def _one(raw):
             if failing:
                 with open(path, 'w') as f:
                     f.write(DOC_MODULE)
+        # import by path: packages by directory, by __init__.py and by their __main__.py
+        pkgs = sorted((tuple(p), k) for (kind, p), k in splits if kind == 'pkg')
+        for n, (p, k) in enumerate(pkgs[:2]):
+            base = os.path.join(root, *p)
+            name = '.'.join(p[k:])
+            targets = [(base, name, os.path.join(base, '__init__.py')), (os.path.join(base, '__init__.py'), name, os.path.join(base, '__init__.py'))]
+            if tree.get(p) in ('pkgmain', 'pkgmainfile'):
+                targets.append((os.path.join(base, '__main__.py'), name + '.__main__', os.path.join(base, '__main__.py')))
+            for path, expname, expfile in targets:
+                before = list(sys.path)
+                try:
+                    with warnings.catch_warnings():
+                        warnings.simplefilter('ignore')
+                        m = util_import.import_module_from_path(path)
+                    if m.__name__ != expname:
+                        bad.append(('import_by_path_name[%s]' % os.path.relpath(path, root), expname, m.__name__))
+                    elif os.path.realpath(getattr(m, '__file__', '') or '') != os.path.realpath(expfile):
+                        bad.append(('import_by_path_file[%s]' % os.path.relpath(path, root), os.path.relpath(expfile, root), getattr(m, '__file__', None)))
+                except Exception as ex:
+                    bad.append(('import_by_path[%s]' % os.path.relpath(path, root), 'module', 'raised %r' % (ex,)))
+                if list(sys.path) != before:
+                    bad.append(('sys_path_restored[%s,ok]' % os.path.relpath(path, root), 'unchanged', [x for x in sys.path if x not in before]))
+                sys.path[:] = before
+                _purge_modules(topnames)
         # package walks
         for p, entries in walks:
             p = tuple(p)
